@@ -126,6 +126,21 @@ func (w *c05World) line(c *Ctx, in string) {
 			return "ok"
 		})
 		c.Emit("%s => %s", in, out)
+	case "issuebof": // issuebof <id> <req>: an object-file task started from a script (its output goes back to the script): the operator's path
+		a := w.agents[parts[1]]
+		req, _ := strconv.ParseUint(parts[2], 10, 32)
+		out := guard(func() string {
+			var msg map[string]string
+			job, err := a.TaskPrepare(agent.COMMAND_INLINEEXECUTE, map[string]interface{}{
+				"TaskID": fmt.Sprintf("%08x", req), "CommandLine": "inline-execute", "HasCallback": "true",
+				"Arguments": "", "Binary": "eA==", "FunctionName": "go", "Flags": "default"}, &msg, "client-1", w.ts)
+			if err != nil || job == nil {
+				return "ERR"
+			}
+			a.AddJobToQueue(*job)
+			return "tasks=" + tasksOf(a)
+		})
+		c.Emit("%s => %s", in, out)
 	case "cb": // cb <id> <cmd> <req> <final> <body>
 		id64, _ := strconv.ParseUint(parts[1], 16, 32)
 		cmd, _ := strconv.ParseUint(parts[2], 10, 32)
@@ -191,6 +206,16 @@ func runC05(c *Ctx) {
 					req = gen.Pick(r, issued) // same id issued again / to another agent
 				}
 				issued = append(issued, req)
+				if r.Chance(1, 6) { // an object-file task whose output goes back to a script, then its callbacks
+					c.Count("issue.bof-with-callback")
+					w.line(c, fmt.Sprintf("issuebof %s %d", id, req))
+					if r.Bool() {
+						w.line(c, fmt.Sprintf("cb %s %d %d 0 %s", id, agent.BEACON_OUTPUT, req, hx(body(fI(agent.CALLBACK_OUTPUT), fS("some output")))))
+					}
+					fin := gen.Pick(r, []uint32{agent.COMMAND_INLINEEXECUTE_RAN_OK, agent.COMMAND_INLINEEXECUTE_COULD_NO_RUN})
+					w.line(c, fmt.Sprintf("cb %s %d %d 1 %s", id, agent.COMMAND_INLINEEXECUTE, req, hx(body(fI(fin)))))
+					continue
+				}
 				c.Count("issue")
 				w.line(c, fmt.Sprintf("issue %s %d %d", id, gen.Pick(r, []uint32{11, 15, 92, 12, 21, 2500}), req))
 				continue
